@@ -12,7 +12,7 @@ open Rtosc
 /-- which macro generated the port -/
 inductive Kind
   | param | paramF | paramI | option | toggle | string
-  | arrayF | arrayT | arrayI | arrayOption
+  | arrayF | arrayT | arrayI | arrayOption | arrayTMember
 deriving Repr, DecidableEq
 
 /-- the value(s) of the field behind a port -/
@@ -49,6 +49,7 @@ def matchPath : Nat → Bytes → Bytes → Except Err (Option Bytes)
   | fuel + 1, pat, msg =>
     match pat, msg with
     | 58 :: _, [] => .ok (some pat)                                  -- ':' and end of path
+    | 58 :: _, _ :: _ => .ok none                                    -- ':' but the path goes on
     | 123 :: _, _ => .error .unsup
     | 42 :: _, _ => .error .unsup
     | 47 :: _, _ => .error .unsup
@@ -110,6 +111,7 @@ def callback (p : Port) (loc path : Bytes) (fld : Field) (args : List Arg) : Exc
     | .string, .str b => (rStringCb p.len loc b args).map fun (v, ev) => (.str v, ev)
     | .arrayF, .flts xs => (rArrayFCb pm loc p.pattern path xs args).map fun (v, ev) => (.flts v, ev)
     | .arrayT, .bools xs => (rArrayTCb loc p.pattern path xs args).map fun (v, ev) => (.bools v, ev)
+    | .arrayTMember, .bools xs => (rArrayTCbMember loc p.pattern path xs args).map fun (v, ev) => (.bools v, ev)
     | .arrayI, .ints xs => (rArrayICb p.ty pm loc p.pattern path xs args).map fun (v, ev) => (.ints v, ev)
     | .arrayOption, .ints xs => (rArrayOptionCb p.ty pm loc p.pattern path xs args).map fun (v, ev) => (.ints v, ev)
     | _, _ => .error .unsup
